@@ -28,6 +28,20 @@ _ARGS = None
 
 
 def _chunk_runner(chunk):
+    import warnings
+
+    warnings.filterwarnings("ignore")
+    if not os.environ.get("VERIF_STDERR"):
+        try:
+            os.dup2(os.open(os.devnull, os.O_WRONLY), 2)
+        except OSError:
+            pass
+    try:
+        import numpy as np
+
+        np.seterr(all="ignore")
+    except Exception:  # noqa: BLE001
+        pass
     out = []
     for item in chunk:
         try:
